@@ -494,6 +494,51 @@ func run1DObligations() {
 		})
 }
 
+// run1DAsymmetric: the same comfortable symbols placed off-centre - up to five symbol heights of
+// extra white on any subset of the four sides - and read under TRY_HARDER (which looks at every
+// row, not only the middle ones) in all four orientations.
+func run1DAsymmetric() {
+	specs := oneDSpecs([]int{30}, 30)
+	const scale = 2
+	big := 5 * 30 * scale
+	var extras [][4]int
+	for m := 1; m < 16; m++ {
+		var e [4]int
+		for k := 0; k < 4; k++ {
+			if m&(1<<uint(k)) != 0 {
+				e[k] = big
+			}
+		}
+		extras = append(extras, e)
+	}
+	extras = append(extras, [4]int{7, 0, big + 13, 1}, [4]int{big/2 + 5, big, 0, 3})
+	chk.Range(fmt.Sprintf("1-D off-centre placements: %s, MARGIN 30, height 30, scale %d, padding 4 plus %d px of extra white on every non-empty subset of {left, top, right, bottom} (and two uneven mixes) x rotation {0,90,180,270}, all under TRY_HARDER: must be read", countNames(specs), scale, big), len(specs),
+		func(i int) string { return specs[i].String() },
+		func(l *mc.Local, i int) {
+			s, base, err := drawFitting(specs[i])
+			if err != nil {
+				cannotDraw(specs[i], err)
+				return
+			}
+			want := s.expect()
+			for _, e := range extras {
+				for _, rot := range []int{0, 90, 180, 270} {
+					t := transform{Pad: 4, Scale: scale, Rot: rot, Extra: e}
+					c := rcase{"image", s, t, true}
+					l.Beat(c.String())
+					o := readImage(l, s, t.apply(base), true, nil)
+					judge(l, c, base, o)
+					l.Distinct("outcomes", fmt.Sprint("offcentre", s.Sym, rot, o.kind, o.orient))
+					l.Distinct("nontrivial", fmt.Sprint("offcentre", s, t))
+					if o.kind == "ok" && o.text == want || o.kind == "ok" || o.kind == "panic" || o.kind == "other" {
+						continue // read, or already reported by judge under its own key
+					}
+					chk.Violation(fmt.Sprintf("C09/1d/%s/off-centre-tryharder-not-read/rot%d", s.Sym, rot), fmt.Sprintf("symbol placed off-centre not read under TRY_HARDER (%s %s): %v", o.kind, o.err, c), c)
+				}
+			}
+		})
+}
+
 // runQRBitsMirror: the decoder itself on the transposed module matrix (no image, no detector).
 func runQRBitsMirror() {
 	specs := withMargin(qrSpecs(), 0)
@@ -643,6 +688,7 @@ func main() {
 	}
 	runQRBitsMirror()
 	run1DObligations()
+	run1DAsymmetric()
 	runFamily("QR (writer default quiet zone 4)", qrSpecs(), true)
 	runFamily("QR (MARGIN 0: the padding is the only quiet zone)", withMargin(qrSpecs(), 0), true)
 	runFamily("Data Matrix (writer draws no quiet zone)", dmSpecs(), false)
